@@ -209,6 +209,7 @@ def _assign(ctx):
     allv = [e for e in evals if any(isinstance(a, (ast.ListComp, ast.For, ast.GeneratorExp)) for a in _ancestors(e, ga))]
     ctx.ob("C36.R5", site, "every element of the right-hand tuple is evaluated (comprehension / loop over the values)", bool(allv), construct="evaluate-every-element")
     _fresh_reads(ctx)
+    _loop_targets(ctx)
 
 
 def _fresh_reads(ctx):
@@ -247,3 +248,34 @@ def _fresh_reads(ctx):
     stv = [c for c in ast.walk(ga) if isinstance(c, ast.Call) and norm(c.func) == "ir.Store"]
     ok = len(ld) == 1 and len(stv) == 1 and norm(ld[0].args[0]) == norm(stv[0].args[1])
     ctx.ob("C36.R6", F + ":PythonToIrCompiler.gen_aug_assign", "`x op= e` loads x from its slot and stores the result to the same slot", ok, construct="augassign-slot")
+
+
+def _loop_targets(ctx):
+    """R7: break and continue belong to the INNERMOST enclosing loop: loops push their (continue, break) blocks on
+    entry and pop them on exit; the jump targets are read from the top of that stack."""
+    ctx.rule("C36.R7", "break / continue jump to the blocks of the innermost enclosing loop: enter_loop appends (continue, break), leave_loop pops, gen_break / gen_continue read the LAST entry (break: its break block, continue: its continue block)", floor=5)
+    el = ctx.fn(F, "PythonToIrCompiler.enter_loop")
+    params = [a.arg for a in el.args.args][1:]
+    ap = [c for c in ast.walk(el) if isinstance(c, ast.Call) and norm(c.func) == "self.block_stack.append"]
+    ok = len(ap) == 1 and isinstance(ap[0].args[0], ast.Tuple) and [norm(e) for e in ap[0].args[0].elts] == params and len(params) == 2
+    ctx.ob("C36.R7", F + ":PythonToIrCompiler.enter_loop", "a loop pushes (continue block, break block) on top of the stack", ok, construct="push", detail=norm(ap[0]) if ap else "")
+    order = params if ok else ["continue_block", "break_block"]
+    ll = ctx.fn(F, "PythonToIrCompiler.leave_loop")
+    pops = [c for c in ast.walk(ll) if isinstance(c, ast.Call) and norm(c.func) == "self.block_stack.pop"]
+    ctx.ob("C36.R7", F + ":PythonToIrCompiler.leave_loop", "and pops the top entry when it is left", len(pops) == 1 and (not pops[0].args or norm(pops[0].args[0]) == "-1"), construct="pop-top")
+    from .. import sym
+    for meth, which in (("gen_break", 1), ("gen_continue", 0)):
+        f = ctx.fn(F, "PythonToIrCompiler." + meth)
+        env = sym.single_assign_env(f)
+        j = [c for c in ast.walk(f) if isinstance(c, ast.Call) and norm(c.func) == "self.builder.emit_jump"]
+        tgt = " ".join(norm(sym.deep_inline(j[0].args[0], env)).split()) if len(j) == 1 else ""
+        # helper that returns the enclosing loop: inline one level of self.<helper>(..)
+        ok = tgt == "self.block_stack[-1][%d]" % which
+        ctx.ob("C36.R7", "%s:PythonToIrCompiler.%s" % (F, meth), "%s jumps to element %d (%s) of the LAST stack entry" % (meth[4:], which, order[which]), ok, construct="innermost:" + meth, detail=tgt)
+    for meth in ("gen_for", "gen_while"):
+        f = ctx.fn(F, "PythonToIrCompiler." + meth)
+        en = [c for c in ast.walk(f) if isinstance(c, ast.Call) and norm(c.func) == "self.enter_loop"]
+        lv = [c for c in ast.walk(f) if isinstance(c, ast.Call) and norm(c.func) == "self.leave_loop"]
+        body = [c for c in ast.walk(f) if isinstance(c, ast.Call) and norm(c.func) == "self.gen_statement"]
+        ok = len(en) == 1 and len(lv) == 1 and body and en[0].lineno < min(b.lineno for b in body) and lv[0].lineno > min(b.lineno for b in body)
+        ctx.ob("C36.R7", "%s:PythonToIrCompiler.%s" % (F, meth), "the loop body is generated between enter_loop and leave_loop", bool(ok), construct="bracket:" + meth)
